@@ -943,6 +943,8 @@ theorem tag_elem (t : String) (a : Attrs) (k : List Xml) (x : Option Str) : (Xml
 
 theorem parseFlag_intro (a : Bool) : parseFlag true (optIf a sZero) = !a := by cases a <;> rfl
 
+theorem optIf_getD_eq (a : Bool) : ((optIf a sOne).getD sZero == sOne) = a := by cases a <;> rfl
+
 theorem parse_write_callable (ns : Str) (c : Callable) (x : Xml)
     (hw : writeCallable ns c = .ok x) (hwf : wfCallable ns c = true) :
     parseCallable ns c.klass x = .ok (canonCallable c) := by
@@ -1038,33 +1040,48 @@ theorem parse_write_callable (ns : Str) (c : Callable) (x : Xml)
     hinstParse, hpn, hps0, paramNames_canon0, hps1, canonReturn0, hrl, hdocs, attrGet_compact]
   -- attributes
   simp only [klassFields, Bool.and_eq_true, Bool.or_eq_true, beq_iff_eq, Option.isNone_iff_eq_none] at hkf
-  obtain ⟨⟨hfn, hvf⟩, hcb⟩ := hkf
+  obtain ⟨⟨⟨hfn, hvf⟩, hcb⟩, hsig⟩ := hkf
   have hb : (!(c.skip || !c.introspectable)) = (c.introspectable && !c.skip) := by
     cases c.skip <;> cases c.introspectable <;> rfl
   have hpf : parseFlag false none = false := rfl
   have hkn : keepTruthy none = none := rfl
   cases hk : c.klass with
   | function =>
-    rw [hk] at hvf hcb
+    rw [hk] at hvf hcb hsig
     simp only [reduceCtorEq, false_or] at hvf hcb
-    simp only [extraAttrs, hk, List.cons_append, List.nil_append, lookupSome, String.reduceEq, ↓reduceIte,
-      Option.or_none, optIf_eq, parseFlag_intro, keepTruthy_idem, canonCallable, canonReturn, hvf, hcb, hb, hpf, hkn,
-      ite_self]
+    simp only [reduceCtorEq, ↓reduceIte, Bool.and_eq_true, Bool.not_eq_true', Option.isNone_iff_eq_none] at hsig
+    obtain ⟨⟨⟨⟨⟨s1, s2⟩, s3⟩, s4⟩, s5⟩, s6⟩ := hsig
+    simp only [extraAttrs, callableTail, hk, List.cons_append, List.nil_append, List.append_nil, lookupSome, String.reduceEq,
+      ↓reduceIte, Option.or_none, optIf_eq, parseFlag_intro, keepTruthy_idem, canonCallable, canonReturn, hvf, hcb, hb,
+      hpf, hkn, ite_self, reduceCtorEq, s1, s2, s3, s4, s5, s6]
   | callback =>
-    rw [hk] at hvf hfn
+    rw [hk] at hvf hfn hsig
     simp only [reduceCtorEq, false_or] at hvf hfn
+    simp only [reduceCtorEq, ↓reduceIte, Bool.and_eq_true, Bool.not_eq_true', Option.isNone_iff_eq_none] at hsig
+    obtain ⟨⟨⟨⟨⟨s1, s2⟩, s3⟩, s4⟩, s5⟩, s6⟩ := hsig
     obtain ⟨⟨⟨⟨⟨h1, h2⟩, h3⟩, h4⟩, h5⟩, h6⟩ := hfn
-    simp only [extraAttrs, hk, List.cons_append, List.nil_append, lookupSome, String.reduceEq, ↓reduceIte,
-      Option.or_none, optIf_eq, parseFlag_intro, keepTruthy_idem, canonCallable, canonReturn, hvf, hb, hpf, hkn,
-      h1, h2, h3, h4, h5, h6, ite_self, reduceCtorEq, truthy_none, Bool.false_eq_true]
+    simp only [extraAttrs, callableTail, hk, List.cons_append, List.nil_append, List.append_nil, lookupSome, String.reduceEq,
+      ↓reduceIte, Option.or_none, optIf_eq, parseFlag_intro, keepTruthy_idem, canonCallable, canonReturn, hvf, hb, hpf, hkn,
+      h1, h2, h3, h4, h5, h6, ite_self, reduceCtorEq, truthy_none, Bool.false_eq_true, s1, s2, s3, s4, s5, s6]
   | vfunction =>
-    rw [hk] at hcb hfn
+    rw [hk] at hcb hfn hsig
     simp only [reduceCtorEq, false_or] at hcb hfn
+    simp only [reduceCtorEq, ↓reduceIte, Bool.and_eq_true, Bool.not_eq_true', Option.isNone_iff_eq_none] at hsig
+    obtain ⟨⟨⟨⟨⟨s1, s2⟩, s3⟩, s4⟩, s5⟩, s6⟩ := hsig
     obtain ⟨⟨⟨⟨⟨h1, h2⟩, h3⟩, h4⟩, h5⟩, h6⟩ := hfn
-    simp only [extraAttrs, hk, List.cons_append, List.nil_append, lookupSome, String.reduceEq, ↓reduceIte,
-      Option.or_none, optIf_eq, parseFlag_intro, keepTruthy_idem, canonCallable, canonReturn, hcb, hb, hpf, hkn,
-      h1, h2, h3, h4, h5, h6, ite_self, reduceCtorEq, truthy_none, Bool.false_eq_true]
-
+    simp only [extraAttrs, callableTail, hk, List.cons_append, List.nil_append, List.append_nil, lookupSome, String.reduceEq,
+      ↓reduceIte, Option.or_none, optIf_eq, parseFlag_intro, keepTruthy_idem, canonCallable, canonReturn, hcb, hb, hpf, hkn,
+      h1, h2, h3, h4, h5, h6, ite_self, reduceCtorEq, truthy_none, Bool.false_eq_true, s1, s2, s3, s4, s5, s6]
+  | signal =>
+    rw [hk] at hvf hcb hfn hsig
+    simp only [reduceCtorEq, false_or] at hvf hcb hfn
+    simp only [↓reduceIte, Bool.and_eq_true, Bool.not_eq_true', Option.isNone_iff_eq_none] at hsig
+    obtain ⟨⟨⟨s1, s2⟩, s3⟩, s4⟩ := hsig
+    obtain ⟨⟨⟨⟨⟨h1, h2⟩, h3⟩, h4⟩, h5⟩, h6⟩ := hfn
+    simp only [extraAttrs, callableTail, hk, List.cons_append, List.nil_append, List.append_nil, lookupSome, String.reduceEq,
+      ↓reduceIte, Option.or_none, optIf_eq, optIf_getD_eq, parseFlag_intro, keepTruthy_idem, canonCallable, canonReturn,
+      hvf, hcb, hb, hpf, hkn, h1, h2, h3, h4, h5, h6, ite_self, reduceCtorEq, truthy_none, Bool.false_eq_true,
+      s1, s2, s3, s4, Option.getD_none, Option.getD_some]
 
 
 /-! ### writing the canonical form gives the same tree -/
@@ -1195,6 +1212,9 @@ theorem write_canonCallable (ns : Str) (c : Callable) :
     cases hk : c.klass <;> simp only [canonCallable, hk, keepTruthy_idem, truthy_keepTruthy]
     · by_cases h : truthy c.shadowedBy = true <;> simp [h, keepTruthy_idem]
     · by_cases h : c.ctype = some c.name <;> simp [h]
+  have htail : callableTail (canonCallable c) = callableTail c := by
+    unfold callableTail
+    cases hk : c.klass <;> simp only [canonCallable, hk]
   have hinst : writeInst ns (paramNames c.params) (canonCallable c).instanceParam
       = writeInst ns (paramNames c.params) c.instanceParam := by
     simp only [canonCallable]
@@ -1205,7 +1225,7 @@ theorem write_canonCallable (ns : Str) (c : Callable) :
       = (c.params.isEmpty && c.instanceParam.isNone) := by
     simp only [canonCallable]
     cases c.params <;> cases c.instanceParam <;> rfl
-  rw [hext, hempty]
+  rw [hext, hempty, htail]
   simp only [show (canonCallable c).params = c.params.map canonParam from rfl, paramNames_canon, hps]
   simp only [show (canonCallable c).docs = canonDocs c.docs from rfl, write_canonDocs,
     show (canonCallable c).retval = canonReturn c.retval from rfl, write_canonReturn]
